@@ -86,6 +86,17 @@ def addr_to_spk(addr):
     return address_to_script_pubkey(addr).raw_serialize()
 
 
+def addr_after_addr(first, second):
+    """history: address_to_script_pubkey(first) -- accepted or not -- and THEN address_to_script_pubkey(second) in the same
+    process -> the script of `second` (a rejected `second` raises); whatever the first call left behind (a memo keyed by a
+    normalised spelling, say) must not decide the second"""
+    try:
+        address_to_script_pubkey(first)
+    except Exception:      # noqa
+        pass
+    return address_to_script_pubkey(second).raw_serialize()
+
+
 def txout_spk(addr):
     return TxOut.to_address(addr, 0).script_pubkey.raw_serialize()
 
